@@ -1,16 +1,24 @@
-from .base import *  # noqa: F401,F403
 from . import base
+from .. import sysgen, exgen
 
 PROP = "C10"
 LEVEL = "exploration"
-COMPONENTS = base.COMPONENTS_EX
-RULE_TEXT = base.RULE_EX
+COMPONENTS = {"real": base.COMPONENTS_SYS["real"], "stub": base.COMPONENTS_EX["stub"]}
+RULE_TEXT = base.RULE_EX + " || sysmodel family: " + base.RULE_SYS + ", with the exact model in lock-step inside run_simulator"
 claims = base.prefix_claims(*"C10.,EX.lists.suspend,EX.states,C03.model.,EX.crash".split(","))
-make = base.ex_make("C10")
-execute = base.ex_execute
-prepare_replay = base.ex_prepare_replay
-sample = base.ex_sample
+execute = base.dispatch_execute
+prepare_replay = base.dispatch_prepare
+sample = base.dispatch_sample
+
+
+def make(family, rng, tier):
+    if family == "ex":
+        return exgen.gen(rng, PROP, tier)
+    scn = sysgen.gen_preempt(rng, tier) if rng.random() < (0.7 if PROP == "C10" else 0.3) else sysgen.gen(rng, None, PROP, tier, offgrid=True)
+    scn["oracles"] = ["model"]
+    return scn
 
 
 def plan(tier):
-    return [("ex", 4000 if tier == "quick" else 60000)]
+    q = tier == "quick"
+    return [("ex", 4000 if q else 60000), ("sysmodel", 1500 if q else 30000)]
